@@ -18,6 +18,7 @@ func propC18(c *Ctx) propInfo {
 	c.proveKeyRules()
 	c.proveWalkArithmetic()
 	c.cursorFreshness()
+	c.cursorPathOwnership()
 	c.prunedAccessors() // the proof stores Hash(0)/Depth(0) read through these accessors
 	c.levelMaskAlgebra()
 	c.layoutVsSpec(func(k string) bool { return k == "tlb.MerkleProof" || k == "tlb.MerkleUpdate" })
@@ -490,4 +491,38 @@ func (c *Ctx) proveWalkArithmetic() {
 	c.check(d.isConst() && d.k.Sign() == 0, R, "remaining' = remaining - label length - 1", upd.Pos(), "one label and one branch bit are consumed per level", "ProveKeyInHashmap updates the remaining key length to "+shape(upd, 4)+"; each level consumes the label and one branch bit (remaining - size - 1): with any other value the length field of every deeper hml_long label is read with the wrong width")
 	// the walk continues only while the label is shorter than the remaining key
 	c.check(p.prove(p.lin(rem).sub(p.lin(size)).addConst(-1)), R, "the walk descends only while remaining > label length", upd.Pos(), "remaining - size - 1 >= 0 on the descending path", "ProveKeyInHashmap descends although the label may already cover the whole remaining key (remaining == label length is the leaf): the value of a key that IS present is then reported as an error")
+}
+
+// cursorPathOwnership (round 5): each cursor's position is its own value. A child position built
+// with append(parent.path, x) on a []byte field shares the parent's backing array: taking the
+// second child overwrites the last byte of the first child's path, so a cursor held across a
+// sibling's creation points at the sibling. Positions are strings (immutable), or the slice is
+// built from a fresh copy.
+func (c *Ctx) cursorPathOwnership() {
+	const R = "E10.cursor-freshness"
+	f := c.fn("boc", "Cursor.Ref")
+	if f == nil {
+		return
+	}
+	okv := true
+	what := ""
+	allInstrs(f, func(_ *ssa.BasicBlock, in ssa.Instruction) {
+		cl, ok := in.(*ssa.Call)
+		if !ok {
+			return
+		}
+		bi, ok := cl.Call.Value.(*ssa.Builtin)
+		if !ok || bi.Name() != "append" {
+			return
+		}
+		// append whose first argument is a field of the receiver (shared storage), result kept in the child
+		if ld, ok := cl.Call.Args[0].(*ssa.UnOp); ok && ld.Op == token.MUL {
+			if fa, ok := ld.X.(*ssa.FieldAddr); ok && fa.X == ssa.Value(f.Params[0]) {
+				okv = false
+				_, fn, _ := fieldOf(fa)
+				what = fn
+			}
+		}
+	})
+	c.check(okv, R, "a child cursor's position does not share storage with its parent's", f.Pos(), "no append onto a slice field of the receiver", "Cursor.Ref builds the child's position with append on the receiver's own slice field ("+what+"): two children of one cursor share a backing array, and creating the second rewrites the position of the first - a cursor kept across that prunes or reveals the wrong subtree")
 }
